@@ -212,7 +212,7 @@ def run_kind(pid, kind, seed, count, args="", binary="sfharness"):
     d = os.path.join(BUILD, "run", pid, kind)
     shutil.rmtree(d, ignore_errors=True)
     os.makedirs(d)
-    shards = min(NPROC, max(1, count // 200))
+    shards = min(NPROC, max(1, count // (9 if kind.startswith("big") else 200)))
     per = (count + shards - 1) // shards
     procs = []
     for i in range(shards):
@@ -230,7 +230,7 @@ def run_kind(pid, kind, seed, count, args="", binary="sfharness"):
         if p.returncode != 0:
             res["errors"].append("shard failed rc=%d (seed %d, kind %s): %s" % (p.returncode, seed, kind, err[-700:].replace("\n", " | ")))
             continue
-        cases = open(cf).read().split("\n")
+        cases = open(cf, errors="backslashreplace").read().split("\n")
         if cases and cases[-1] == "":
             cases.pop()
         res["cases"] += len(cases)
@@ -240,7 +240,7 @@ def run_kind(pid, kind, seed, count, args="", binary="sfharness"):
                 seen.add(hashlib.blake2b(c.encode(), digest_size=8).digest())
         if len(res["samples"]) < 3 and cases:
             res["samples"].append(cases[len(cases) // 2][:400])
-        for line in open(vf):
+        for line in open(vf, errors="backslashreplace"):
             line = line.rstrip("\n")
             if line.startswith("OK "):
                 res["ok"] += 1
@@ -502,4 +502,12 @@ def main(argv):
     seed = int(os.environ.get("VERIF_SEED", "1") or "1")
     if replay:
         return run_replay(pid, replay)
-    return run_check(pid, tier, seed)
+    try:
+        return run_check(pid, tier, seed)
+    except Exception:
+        # the machinery itself failed on this tree: the property is not shown to hold
+        import traceback
+        path = write_replay(pid, "machinery", dict(property=pid, broken="check machinery raised an exception",
+                                                   log=traceback.format_exc()[-3000:]))
+        print("VIOLATION property=%s replay=%s no-failing-input-found" % (pid, path))
+        return 1
